@@ -161,6 +161,41 @@ def rule2(ctx, rep):
             "every normal path of one job iteration executes <job>.get('do').clear() and _jobs.remove(<job>) after the _put calls",
             f'a path through the job iteration leaves the do set or the batch entry behind (states (put, cleared, removed) = {bad}): the unit would be queued again on the next tick',
         )
+        # who-may-shrink the batch: besides the per-job removal above only farm.clear() (the whole estate is reset on a
+        # reload) may take jobs out of _jobs - their targets are already in `doing`, so a job that silently leaves the
+        # batch is never offered again (added after seeded change C02-4: `_jobs.clear()` in dispatch's except handler)
+        JOBS = 'dawgie.pl.farm._jobs'
+        in_loop = {id(x) for b in loop.body for x in ast.walk(b)}
+        for fn in prog.funcs.values():
+            if not fn.module.name.startswith('dawgie.'):
+                continue
+            g = prog.nfunc(fn.qname) if fn.qname == disp.qname else fn
+            globs = {n for x in g.own_nodes() if isinstance(x, ast.Global) for n in x.names}
+            for n in g.own_nodes():
+                site = None
+                if isinstance(n, ast.Call) and isinstance(n.func, ast.Attribute) and n.func.attr in ('clear', 'pop', 'popleft', 'remove', '__delitem__') and shared.resolve_container(prog, g, n.func.value) == JOBS:
+                    site = n
+                elif isinstance(n, ast.Delete) and any(isinstance(t, ast.Subscript) and shared.resolve_container(prog, g, t.value) == JOBS for t in n.targets):
+                    site = n
+                elif isinstance(n, (ast.Assign, ast.AugAssign)):
+                    tg = n.targets if isinstance(n, ast.Assign) else [n.target]
+                    for t in tg:
+                        base = t.value if isinstance(t, ast.Subscript) else t
+                        if isinstance(base, ast.Attribute) and prog.resolve_in(base, g) == JOBS:
+                            site = n
+                        if isinstance(base, ast.Name) and base.id == '_jobs' and (base.id in globs or isinstance(t, ast.Subscript)) and g.module.name == 'dawgie.pl.farm':
+                            site = n
+                if site is None:
+                    continue
+                r.instance()
+                okw = g.qname == 'dawgie.pl.farm.clear' or (g.qname == disp.qname and id(site) in in_loop and isinstance(site, ast.Call) and site.func.attr in ('remove', 'pop', 'popleft'))
+                r.check(
+                    okw,
+                    f'{g.qname}:{norm(site)[:80]}',
+                    where(g, site),
+                    'batch entries leave _jobs only per job after their messages exist, or in farm.clear()',
+                    f'{g.qname}: {norm(site)[:80]} takes jobs out of the batch outside the per-job hand-over: their targets stay in `doing` and are never offered again',
+                )
         # worker assignment: _workers.pop and _cluster.pop in the same call, loop bound min(len, len)
         assigns = []
         for c in disp.calls():
@@ -441,6 +476,89 @@ def _reply_correspondence(ctx, rep, r):
     return corr
 
 
+def rule5(ctx, rep):
+    """cloud hand-over (added after seeded change C04-5: a failed push in Connect.hire neither hired nor handed the job
+    back; the unit left farm's lists for good while its target stayed in `doing`)"""
+    prog = ctx.prog
+    cls = prog.cls('dawgie.pl.worker.aws.Connect')
+    with rep.rule(
+        'R-C03-5',
+        'cloud hand-over: every step of the hiring exchange (methods of aws.Connect) ends, on every normal path, in exactly one of: next step scheduled, contractor recorded as hired, job handed back through the respond callback',
+        floor=3,
+        breaks='a unit handed to the cloud path silently disappears: it is in no list of the farm, its target stays in `doing` and nothing re-releases it',
+    ) as r:
+        steps = [m for n, m in sorted(cls.methods.items()) if not n.startswith('__')]
+        for m in steps:
+            f = prog.nfunc(m.qname)
+            rep.analysed(f)
+
+            class St(Flow):
+                def on_call(s, call, st):
+                    fn = call.func
+                    hit = False
+                    if isinstance(fn, ast.Attribute) and isinstance(fn.value, ast.Name) and fn.value.id == 'self' and fn.attr in ('_respond', '_call_later'):
+                        hit = True
+                    if isinstance(fn, ast.Attribute) and fn.attr in ('append', 'add') and isinstance(fn.value, (ast.Name, ast.Attribute)) and (prog.resolve_in(fn.value, f) or '').endswith('aws._contractors'):
+                        hit = True
+                    return (min(st + 1, 2),) if hit else (st,)
+
+            fl = St()
+            out = fl.run(f.node, 0)
+            exits = out.normal | out.ret
+            r.instance()
+            r.check(
+                exits == {1},
+                f'{m.qname}:one-outcome',
+                where(f),
+                'every normal path continues, hires or hands the job back exactly once',
+                f'{m.qname} can return after {sorted(exits)} outcomes (next step scheduled / hired / handed back): with 0 the job is lost, with 2 it is both kept and handed back',
+            )
+
+
+def rule6(ctx, rep):
+    """an in-flight unit stays in `doing` and findable until its reply (the own-doing filter of R-C03-1 and the lookup
+    of R-C03-3 both rely on it).  Added after the history found while confirming seeded change C03-3: purge() withdraws
+    a failed target from the `doing` set of dependents that are executing it."""
+    prog = ctx.prog
+    with rep.rule(
+        'R-C03-6',
+        'the doing set is truthful: a target leaves `doing` only where the reply is applied (schedule.complete); while some other site strips it, every queue rebuild keeps the entries that are already queued',
+        floor=2,
+        breaks='a unit that is still executing looks idle: it is released a second time while the first execution has not replied, or its job leaves the queue and the reply is dropped',
+    ) as r:
+        from .. import wsa as _w
+
+        strip = []
+        for o in _w.all_ops(prog):
+            if o.kind == 'doing' and o.op in _w.SHRINK:
+                r.instance()
+                rep.analysed(o.func)
+                ok = o.func.qname == 'dawgie.pl.schedule.complete'
+                if not ok:
+                    strip.append(o)
+                r.check(
+                    ok,
+                    f'{o.func.qname}:doing-shrinks-outside-reply',
+                    o.where,
+                    'doing shrinks in complete() (reply applied)',
+                    f'{o.func.qname}: {norm(o.node)} takes a target out of `doing` although no reply was applied: the unit is still executing but is no longer protected by the own-doing filter (second concurrent release) nor counted as working',
+                )
+        for o in _w.all_ops(prog):
+            if o.kind == 'que' and o.op == 'rebind' and strip:
+                facts = shared.rebind_facts(prog, o)
+                if facts['kind'] != 'filtered':
+                    continue
+                r.instance()
+                k = facts.get('table_queued', facts['table'])
+                r.check(
+                    all(k.values()),
+                    f'{o.func.qname}:{norm(o.node)[:100]}:keeps-queued-entries',
+                    o.where,
+                    'entries already on the queue are kept whatever their sets look like',
+                    f'{o.func.qname} rebuilds the queue and drops entries whose todo and doing are empty; because {strip[0].func.qname} strips `doing` of executing units, such an entry can be in flight: its reply no longer finds the job and the result is dropped',
+                )
+
+
 def check(ctx):
     rep = Report(
         PID,
@@ -450,7 +568,7 @@ def check(ctx):
         'the job\'s own doing set; (2) farm.dispatch queues one message per released (job,target), drains do, drops the batch entry, and pops one '
         'worker per message; (3) farm.Hand._res applies a found reply exactly once (complete then update xor purge) and swallows only the failed '
         'lookup; (4) the busy list is written only at hand-out / reply sites with agreeing key shapes (reply field correspondence read from the '
-        'worker reply constructions). With Inv-A (C01) the job of an in-flight unit is always findable.',
+        'worker reply constructions); (5) every step of the cloud hiring exchange continues, hires or hands the job back. With Inv-A (C01) the job of an in-flight unit is always findable.',
         assumptions=['workers answer every task they accept (property assumption)', 'exceptions raised inside complete/update/purge are not modelled'],
     )
     rep.not_decided = ['workers that never answer', "the exception path inside dispatch's bare except", 'concrete reply orders (the induction is argued in DESIGN.md)']
@@ -458,14 +576,21 @@ def check(ctx):
     rule2(ctx, rep)
     rule3(ctx, rep)
     rule4(ctx, rep)
+    rule5(ctx, rep)
+    rule6(ctx, rep)
     return rep
 
 
 VARIANTS = [
+    V('organize drops idle-looking queue entries', 'B', 'pl/schedule.py', 'organize', 'lambda j: j in que or j.get(\'todo\') or j.get(\'doing\')', 'lambda j: j.get(\'todo\') or j.get(\'doing\')', 'R-C03-6'),
+    V('complete also discards from do', 'N', 'pl/schedule.py', 'complete', "job.get('doing').clear()", "job.get('doing').clear()\n        job.get('do').clear()", None),
+    V('failed hire push drops the job', 'B', 'pl/worker/aws.py', 'Connect.hire', 'else:\n            self._log.warning', 'elif response:\n            self._log.warning', 'R-C03-5'),
+    V('interview hands back and continues', 'B', 'pl/worker/aws.py', 'Connect.interview', 'self._respond(self._job, True)', 'self._respond(self._job, True)\n            self._call_later(15, self.interview)', 'R-C03-5'),
     V('own-doing filter removed', 'B', 'pl/schedule.py', 'next_job_batch', "available -= job.get('doing')", 'pass', 'R-C03-1'),
     V('own-doing filter only inside dependency loop', 'B', 'pl/schedule.py', 'next_job_batch', "available -= job.get('doing')  # still executing from an earlier batch\n            for dep in jobs.keys() & job.get('ancestry'):", "for dep in jobs.keys() & job.get('ancestry'):\n                available -= job.get('doing')", 'R-C03-1'),
     V('do not cleared', 'B', 'pl/farm.py', 'dispatch', "j.get('do').clear()", 'pass', 'R-C03-2'),
     V('job not dropped from batch', 'B', 'pl/farm.py', 'dispatch', '_jobs.remove(j)', 'pass', 'R-C03-2'),
+    V('batch cleared in the except handler', 'B', 'pl/farm.py', 'dispatch', 'log.exception("Error processing from next_job_batch()")', 'log.exception("Error processing from next_job_batch()")\n        _jobs.clear()', 'R-C03-2'),
     V('_put appends twice', 'B', 'pl/farm.py', '_put', ').append(msg)', ').append(msg)\n    _cluster.append(msg)', 'R-C03-2'),
     V('worker not popped', 'B', 'pl/farm.py', 'dispatch', '_workers.pop(0).do(_cluster.pop(0))', '_workers[0].do(_cluster.pop(0))', 'R-C03-2'),
     V('loop bound len(_cluster)', 'B', 'pl/farm.py', 'dispatch', 'range(min(len(_cluster), len(_workers)))', 'range(len(_cluster))', 'R-C03-2'),
